@@ -6,7 +6,8 @@
 From MW Require Import Model.Base Model.Datum Model.VmTypes Model.Heap Model.Gc Model.VmBase Model.Vm
   Model.Builtins Proofs.HeapProofs Proofs.VmProofs Proofs.SymtabProofs Proofs.QuoteHeapProofs
   Proofs.RunProofs Proofs.CompileCorrect Proofs.ContProofs Proofs.ContExample
-  Proofs.MonoBase Proofs.MonoCompile Proofs.MonoStep Proofs.MonoBuiltins Proofs.MonoCont Proofs.MonoExample.
+  Proofs.MonoBase Proofs.MonoCompile Proofs.MonoStep Proofs.MonoBuiltins Proofs.MonoCont Proofs.MonoTcall
+  Proofs.MonoExample.
 Open Scope N_scope.
 
 (* Capture.  The machine is at a CALL/TCALL (instruction pointer already past it)
@@ -551,4 +552,90 @@ Proof.
   split; [exact cx_at_callcc|]. split; [exact cx_in_cc_frame|]. split; [exact cx_later_chain|].
   split; [exact cx_at_invoke|]. split; [exact cx_arg|].
   exact (C05_captured_live_later _ _ _ _ _ _ _ _ cx_at_callcc cx_later_chain).
+Qed.
+
+
+(* =================================================================================
+   call/cc in TAIL position (a TCALL site; proofs: Proofs/MonoTcall.v).  The saved instruction
+   pointer (lp, i+1) is the RET that follows the TCALL in the body of the procedure containing
+   the site.  A tail-called receiver REPLACES that procedure's frame (TCALL reuses it in place
+   when the argument counts agree and rebuilds it otherwise) and its own RET returns to the
+   caller's caller.  Invoking k restores the containing procedure's frame; ONE more instruction,
+   that RET, pops it.  So the equality with the receiver's normal return holds one RET later.
+   [site_frame m n e0 l0 i0 b0]: the frame of the containing procedure at m;
+   [in_tcc_frame m n e0 l0 i0 b0 mr n']: mr sits in a frame (of n' arguments) that returns to
+   the same place.  That TCALL + ENTER of a closure produce such a frame is NOT derived here
+   (TailProofs.tcall_frame_effect is the lemma to instantiate): it is a hypothesis, checked on
+   the example below by computation.
+   ================================================================================= *)
+Theorem C05_site_frame_unfold : forall m n e0 l0 i0 b0,
+  site_frame m n e0 l0 i0 b0 <->
+  (sget m (bp m + 1) = VArgc n /\ sget m (bp m + 2) = VEp e0 /\ sget m (bp m + 3) = VIp l0 i0 /\
+   sget m (bp m + 4) = VBp b0 /\ n <= bp m /\ bp m + 4 <= sp m - 2).
+Proof.
+  intros. split.
+  - intros [H1 H2 H3 H4 H5 H6]. auto 8.
+  - intros (H1 & H2 & H3 & H4 & H5 & H6). constructor; assumption.
+Qed.
+Print Assumptions C05_site_frame_unfold.
+
+Theorem C05_in_tcc_frame_unfold : forall m n e0 l0 i0 b0 mr n',
+  in_tcc_frame m n e0 l0 i0 b0 mr n' <->
+  (sget mr (bp mr + 1) = VArgc n' /\ n' <= bp mr /\ bp mr - n' = bp m - n /\
+   sget mr (bp mr + 2) = VEp e0 /\ sget mr (bp mr + 3) = VIp l0 i0 /\ sget mr (bp mr + 4) = VBp b0 /\
+   (forall j, j <= bp m - n -> sget mr j = sget m j) /\ bp mr + 4 < scap mr).
+Proof.
+  intros. split.
+  - intros [H1 H2 H3 H4 H5 H6 H7 H8]. auto 10.
+  - intros (H1 & H2 & H3 & H4 & H5 & H6 & H7 & H8). constructor; assumption.
+Qed.
+Print Assumptions C05_in_tcc_frame_unfold.
+
+(* m: AT the TCALL of call/cc, followed by RET; mr: the tail-called receiver at its RET with
+   %acc = v; s': any state (klive) applying k to v in which the code object of the site is still
+   there.  Then  mr --RET--> s_ret,  s' --invoke--> s_inv (at that RET) --RET--> s_inv2,  and
+   s_inv2, s_ret agree on sp, bp, ep, ip, acc and every slot <= sp; they are the registers of
+   the containing procedure's CALLER: sp = bp m - n, bp = b0, ep = e0, ip = (l0, i0), acc = v. *)
+Theorem C05_invoke_equals_return_tcall : forall ob m lp i bc fp pv n e0 l0 i0 b0 mr n' lq iq bq s' tail' v,
+  at_callcc ob m lp i bc true fp pv -> seg bc (i + 1) [VOp ORet] ->
+  site_frame m n e0 l0 i0 b0 ->
+  in_tcc_frame m n e0 l0 i0 b0 mr n' -> code_in mr lq bq -> ip mr = (lq, iq) -> seg bq iq [VOp ORet] -> acc mr = v ->
+  klive (next_id (st m)) (k_cap m lp i) s' -> at_invoke s' (next_id (st m)) tail' ->
+  sget s' (sp s' - 1) = v -> code_in s' lp bc ->
+  exists s_ret s_inv s_inv2,
+    run_one ob mr = ROk false s_ret /\ run_one ob s' = ROk false s_inv /\ run_one ob s_inv = ROk false s_inv2 /\
+    (sp s_inv2 = sp s_ret /\ bp s_inv2 = bp s_ret /\ ep s_inv2 = ep s_ret /\ ip s_inv2 = ip s_ret /\
+     acc s_inv2 = acc s_ret /\ forall j, j <= sp s_ret -> sget s_inv2 j = sget s_ret j) /\
+    ip s_inv = (lp, i + 1) /\
+    sp s_ret = bp m - n /\ bp s_ret = b0 /\ ep s_ret = e0 /\ ip s_ret = (l0, i0) /\ acc s_ret = v /\
+    (forall j, j <= bp m - n -> sget s_ret j = sget m j) /\
+    hp s_inv2 = hp s' /\ st s_inv2 = st s' /\ g_bind s_inv2 = g_bind s' /\ g_slots s_inv2 = g_slots s' /\
+    out_log s_inv2 = out_log s' /\ scap s_inv2 = scap s' /\
+    klive (next_id (st m)) (k_cap m lp i) s_inv2.
+Proof. exact invoke_equals_return_tcall. Qed.
+Print Assumptions C05_invoke_equals_return_tcall.
+
+(* non-vacuity: ((lambda (f) (call/cc f)) (lambda (k) (set! kk k) 'a)) after (define kk #f),
+   then (kk 'a) in a later evaluation.  tx_m: at the TCALL of call/cc (code object 291,
+   instruction 10, RET at 11) inside the frame of (lambda (f) ...) (1 argument, returns to
+   (293, 6)); tx_mr: the tail-called receiver at its RET (code object 289, instruction 13);
+   tx_s': form 2 at its TCALL of kk.  All hypotheses hold; one RET after tx_mr and two
+   instructions after tx_s' the machines agree: ip (293, 6), sp 0, bp 0, %acc = a. *)
+Example C05_example_tcall :
+  at_callcc other_builtin tx_m 291 10 (cx_bc tx_m 291) true 295 (VClosure 289 294) /\
+  seg (cx_bc tx_m 291) (10 + 1) [VOp ORet] /\
+  site_frame tx_m 1 USIZE_MAX 293 6 0 /\ in_tcc_frame tx_m 1 USIZE_MAX 293 6 0 tx_mr 1 /\
+  (code_in tx_mr 289 (cx_bc tx_mr 289) /\ ip tx_mr = (289, 13) /\
+   seg (cx_bc tx_mr 289) 13 [VOp ORet] /\ acc tx_mr = VPtr 288) /\
+  klive (next_id (st tx_m)) (k_cap tx_m 291 10) tx_s' /\ at_invoke tx_s' (next_id (st tx_m)) true /\
+  sget tx_s' (sp tx_s' - 1) = VPtr 288 /\ code_in tx_s' 291 (cx_bc tx_m 291) /\
+  (match steps other_builtin 1 tx_mr, steps other_builtin 2 tx_s' with
+   | Some a, Some b => ip a = (293, 6) /\ ip b = (293, 6) /\ sp a = 0 /\ sp b = 0 /\ bp a = 0 /\ bp b = 0 /\
+                       acc a = VPtr 288 /\ acc b = VPtr 288
+   | _, _ => False end).
+Proof.
+  split; [exact tx_at_callcc|]. split; [exact tx_ret_after|]. split; [exact tx_site_frame|].
+  split; [exact tx_in_tcc_frame|]. split; [exact tx_mr_at_ret|]. split; [exact tx_klive|].
+  split; [exact tx_at_invoke|]. split; [exact tx_arg|]. split; [exact tx_code_later|].
+  vm_compute. repeat split.
 Qed.
